@@ -3,9 +3,10 @@
 # each applied to a fresh scratch worktree of /repo's HEAD; one line per change in matrix/last_run.log (committed: DESIGN 10.6 is built from it)
 #   lib/matrix_run.sh [name-substring ...]
 export GOFLAGS=-mod=mod GOPROXY=off GOSUMDB=off GOTOOLCHAIN=local
-cd /verif
+ROOT=$(cd "$(dirname "$0")/.."; pwd)   # relocatable: `vp run -- ./lib/matrix_run.sh` works on the snapshot
+cd $ROOT
 mkdir -p matrix
-LOG=/verif/matrix/last_run.log
+LOG=$ROOT/matrix/last_run.log
 W=/tmp/wt/matrix-wt
 run() { # name prop patch reverse
   local name=$1 prop=$2 patch=$3 rev=$4
@@ -24,11 +25,11 @@ run() { # name prop patch reverse
 want() { [ $# -eq 0 ] && return 0; local n=$1; shift; for s in "$@"; do [[ $n == *$s* ]] && return 0; done; return 1; }
 for d in seeded/*/; do
   id=$(basename $d); prop=${id:0:3}
-  if [ $# -eq 0 ] || want $id "$@"; then run $id $prop /verif/$d/patch.diff ""; fi
+  if [ $# -eq 0 ] || want $id "$@"; then run $id $prop $ROOT/$d/patch.diff ""; fi
 done
 for f in mutants/*.patch; do
   name=$(basename $f .patch); prop=$(echo $name | sed -E 's/^(revert_fix_)?(C[0-9]+).*/\2/')
   if [ $# -eq 0 ] || want $name "$@"; then
-    if [[ $name == revert_fix_* ]]; then run $name $prop /verif/$f R; else run $name $prop /verif/$f ""; fi
+    if [[ $name == revert_fix_* ]]; then run $name $prop $ROOT/$f R; else run $name $prop $ROOT/$f ""; fi
   fi
 done
